@@ -10,10 +10,11 @@ import (
 )
 
 func init() {
-	Explanations["C16"] = "Decides structural necessary conditions of 'formation/renewal yields a confirmable contract or leaves no trace': (R1, host) after every successful Wallet.FundV2Transaction(&T) a deferred ReleaseInputs covering T is registered before any other exit, the flag that disarms it is set only after the wallet broadcast succeeded, and no store that replaces or shrinks T / T.SiacoinInputs can reach an exit without a restoring append (otherwise the deferred release misses the host's inputs); (R2, renter) in every renter function that funds a transaction, every return that is not definitely a success return and is reachable from the funding success edge is preceded by ReleaseInputs of that transaction; (R3) AddV2Contract/RenewV2Contract are dominated by the success edge of AddV2PoolTransactions for the same transaction set, and the wallet broadcast follows the contractor call. Signature and funding checks of the renter are decided under C10.R1/R2, the host's signature checks under C08.R4. NOT decided: that the set confirms once mined, behaviour when the final response is lost after the contract is recorded."
+	Explanations["C16"] = "Decides structural necessary conditions of 'formation/renewal yields a confirmable contract or leaves no trace': (R1, host) after every successful Wallet.FundV2Transaction(&T) a deferred ReleaseInputs covering T is registered before any other exit, the flag that disarms it is set only after the wallet broadcast succeeded, and no store that replaces or shrinks T / T.SiacoinInputs can reach an exit without a restoring append (otherwise the deferred release misses the host's inputs); (R2, renter) in every renter function that funds a transaction, every return that is not definitely a success return and is reachable from the funding success edge is preceded by ReleaseInputs of that transaction; (R3) AddV2Contract/RenewV2Contract are dominated by the success edge of AddV2PoolTransactions for the same transaction set, and the wallet broadcast follows the contractor call; (R4) wherever package rhp builds a TransactionSet value or hands (basis, transactions) to the pool or the wallet, basis and transactions come from the same origin — two fields of one request/response value, or two results of one call (re-slicing allowed) — so a set is never labelled with a basis its proofs were not produced for. Signature and funding checks of the renter are decided under C10.R1/R2, the host's signature checks under C08.R4. NOT decided: that the set confirms once mined, behaviour when the final response is lost after the contract is recorded."
 
 	register(&Rule{ID: "C16.R1", Prop: "C16", Floor: 9, Doc: "host: funded inputs are released on every failure exit (deferred release registered first, disarmed only after broadcast, transaction not shrunk)", Run: c16r1})
 	register(&Rule{ID: "C16.R2", Prop: "C16", Floor: 3, Doc: "renter: every non-success return after funding is preceded by ReleaseInputs", Run: c16r2})
+	register(&Rule{ID: "C16.R4", Prop: "C16", Floor: 10, Doc: "a transaction set always travels with the basis it was produced for", Run: c16r4})
 	register(&Rule{ID: "C16.R3", Prop: "C16", Floor: 3, Doc: "contract recorded only after the full set was accepted by the pool; broadcast after recording", Run: c16r3})
 }
 
@@ -65,6 +66,31 @@ func c16r1(c *Ctx) {
 					continue
 				}
 				r := rel{node: d.Node}
+				if d.Lit != nil {
+					// inside the deferred closure the release may be skipped only on the true edge of a boolean flag
+					lg := d.Lit.Graph()
+					cut := map[*cfgx.Edge]bool{}
+					for _, n := range lg.Nodes {
+						if n.Block != nil && n.Block.Cond == n.AST && len(n.Succs) == 2 {
+							if o := d.Lit.ObjOf(n.AST.(ast.Expr)); o != nil {
+								if b, ok := o.Type().Underlying().(*types.Basic); ok && b.Kind() == types.Bool {
+									cut[n.Succs[0]] = true
+								}
+							}
+						}
+					}
+					isRelCall := func(n *cfgx.Node) bool { _, ok := d.Lit.NodeCallsTo(n, release); return ok }
+					vs := lg.Explore([]*cfgx.Visit{cfgx.StartAt(lg.Entry, 0)}, cfgx.Walker{
+						AtNode: func(n *cfgx.Node, s cfgx.State) (cfgx.State, bool) { return s, !isRelCall(n) },
+						OnEdge: func(e *cfgx.Edge, s cfgx.State) (cfgx.State, bool) { return s, !cut[e] },
+					})
+					for _, v := range vs {
+						if v.Node == lg.Exit {
+							condOb := c.Ob(f, "deferred-release-unconditional", d.Node.Pos())
+							condOb.Bad(nil, "the deferred closure registered at %s can finish without calling ReleaseInputs on a path that is not guarded by a boolean 'already broadcast' flag (e.g. it depends on an error variable that later failure exits shadow): failed attempts keep the host's inputs reserved", c.P.Pos(d.Node.Pos()))
+						}
+					}
+				}
 				// the disarming flag: `if flag { return }` at the top of the literal
 				if d.Lit != nil {
 					for _, n := range d.Lit.Graph().Nodes {
@@ -306,6 +332,92 @@ func c16r3(c *Ctx) {
 				}
 			}
 			ob2.Check(good, nil, "the wallet broadcast of the set is not on the success edge of %s: the set is broadcast although the host recorded no contract (or never broadcast)", sink.Fn.Name())
+		}
+	}
+}
+
+// c16r4: (basis, transactions) pairs come from one origin.
+func c16r4(c *Ctx) {
+	tsT := c.P.Named("rhp", "TransactionSet")
+	sameOrigin := func(f *ir.Func, b, t ast.Expr) (bool, string) {
+		t = ast.Unparen(t)
+		if se, ok := t.(*ast.SliceExpr); ok {
+			t = ast.Unparen(se.X)
+		}
+		b = ast.Unparen(b)
+		bs, bIsSel := b.(*ast.SelectorExpr)
+		ts, tIsSel := t.(*ast.SelectorExpr)
+		if bIsSel && tIsSel {
+			if sameLvalue(f, bs.X, ts.X) {
+				return true, ""
+			}
+			return false, "fields of different values"
+		}
+		bo, to := f.ObjOf(b), f.ObjOf(t)
+		if bo == nil || to == nil {
+			return false, "basis and transactions are neither two fields of one value nor two variables"
+		}
+		// some definition of the transactions variable must be a tuple assignment that also defines the basis variable,
+		// and every later definition of either comes from such a joint assignment or a re-slice of itself
+		joint := false
+		for _, d := range wholeDefs(f, to) {
+			var lhs []ast.Expr
+			switch st := d.Stmt.(type) {
+			case *ast.AssignStmt:
+				lhs = st.Lhs
+			case *ast.ValueSpec:
+				for _, nm := range st.Names {
+					lhs = append(lhs, nm)
+				}
+			}
+			for _, l := range lhs {
+				if f.ObjOf(l) == bo && len(lhs) > 1 && ir.TupleRHS(d.Stmt) != nil {
+					joint = true
+				}
+			}
+		}
+		if joint {
+			return true, ""
+		}
+		return false, "basis variable " + bo.Name() + " and transactions variable " + to.Name() + " are not produced by the same call"
+	}
+	for _, f := range c.P.PkgFuncs("rhp") {
+		for _, fn := range append([]*ir.Func{f}, f.Lits...) {
+			ir.Walk(fn.Body, false, func(x ast.Node) {
+				switch e := x.(type) {
+				case *ast.CompositeLit:
+					if !types.Identical(fn.TypeOf(e), tsT) {
+						return
+					}
+					var b, t ast.Expr
+					for _, el := range e.Elts {
+						if kv, ok := el.(*ast.KeyValueExpr); ok {
+							switch kv.Key.(*ast.Ident).Name {
+							case "Basis":
+								b = kv.Value
+							case "Transactions":
+								t = kv.Value
+							}
+						}
+					}
+					if b == nil || t == nil {
+						return
+					}
+					c.Visit(1)
+					ob := c.Ob(f, "basis-and-set-same-origin", e.Pos())
+					ok, why := sameOrigin(fn, b, t)
+					ob.Check(ok, nil, "the TransactionSet built at %s pairs basis %s with transactions %s (%s): the set's Merkle proofs are valid for another basis, so a pool other than the producer's rejects it although the RPC reported success", c.P.Pos(e.Pos()), ir.ExprString(b), ir.ExprString(t), why)
+				case *ast.CallExpr:
+					callee := fn.Callee(e)
+					if callee == nil || (callee.Name() != "AddV2PoolTransactions" && callee.Name() != "BroadcastV2TransactionSet") || len(e.Args) != 2 {
+						return
+					}
+					c.Visit(1)
+					ob := c.Ob(f, "basis-and-set-same-origin:"+callee.Name(), e.Pos())
+					ok, why := sameOrigin(fn, e.Args[0], e.Args[1])
+					ob.Check(ok, nil, "%s at %s is given basis %s with transactions %s (%s)", callee.Name(), c.P.Pos(e.Pos()), ir.ExprString(e.Args[0]), ir.ExprString(e.Args[1]), why)
+				}
+			})
 		}
 	}
 }
